@@ -80,6 +80,8 @@ extern "C" void harness(void)
     VCLAIM(7, rejected(m, 7) && effects == 1, "C07.matching_call_is_one_fatal_report_no_action");
     VCLAIM(7, vf_last.line == 270, "C07.forbidden_report_carries_forbids_location");
     VCLAIM(7, rejected(m, 7) && effects == 1, "C07.forbidden_again_same_outcome");
+    VCLAIM(1, effects == 1 && fb->sequences->get_calls() == 0, "C01.forbidden_candidate_rejected_every_time_no_count_change");
+    VCLAIM(1, rejected(m, 7) && effects == 1 && fb->sequences->get_calls() == 0, "C01.forbidden_candidate_rejected_a_third_time");
     VCLAIM(7, fb->is_satisfied() && fb->is_saturated(), "C07.forbid_always_satisfied_and_saturated");
     VCLAIM(16, vf_nok == 1, "C16.ok_reports_only_for_accepted_calls");
   }
